@@ -27,7 +27,13 @@ type Case struct {
 	Old   wh.Build `json:"old"`   // the build the directory holds
 	New   wh.Build `json:"new"`   // the build the patch leads to
 	Patch string   `json:"patch"` // plain | rediff-0 | rediff-2 (optimized, partitions 0 / 2)
+	// Orders (variant sched only): the map-iteration choices of one execution (replay)
+	Orders []int `json:"orders,omitempty"`
 }
+
+// schedExplore (set by sched.go in the instrumented build) enumerates every
+// iteration order of the maps the commit phase ranges over.
+var schedExplore func(w *runner.W, c Case, runOne func() runResult, judge func(res runResult, orders []int) bool) (executions int, harnessErr string)
 
 // extraRuns is how many additional times a case with >= 2 transpositions or
 // >= 2 overlay files is re-run, so that different iteration orders of the maps
@@ -73,13 +79,14 @@ func main() {
 			"Quick and thorough differ only in the stride of the P3 slice (3533 -> 201 pairs, 353 -> 2004 pairs). " +
 			"Non-trivial = the commit has >= 2 transpositions, or a transposition that needs a clash rename (.butler-rename), or a transposition whose source also has a pending overlay, or an overlay with a SKIP run (P3), or a kind change of a path (P2).",
 		Assumptions: []string{
-			"the iteration order of the Go maps ranged over by applyTranspositions is NOT enumerated yet (needs the scheduler/map-order instrumentation, hook: mapOrders()); every case runs once, and every case with >= 2 transpositions or >= 2 overlay files is re-run 3 more times under Go's random map order, which makes other orders likely but does not guarantee them",
+			"the iteration orders of the Go maps ranged over by the commit phase are enumerated exhaustively by sub-check map-orders (variant sched: pwr/bowl rebuilt with range-over-map rewritten to an explored key order) for every P1 pair (thorough: P2 too) with >= 2 transposition groups or overlays; the plain sub-checks additionally re-run such cases 3 times under Go's random order",
 			"block contents are seeded pseudo-random (VERIF_SEED); byte values outside the block alphabet are not enumerated",
 			"file modes, inodes and timestamps of the final tree are not compared; the pre-commit comparison additionally requires that no entry was rewritten (inode/mtime unchanged)",
 			"patches are written uncompressed (compression is C01/C13's dimension)",
 			"a failure or panic of the optimizer itself (rediff/bsdiff) is not judged here (C07/C12): the case is recorded with outcome rediff-failed and skipped",
 			"case-insensitive file systems (fixExistingCase) are not exercised",
 		},
+		Variants:       []string{"sched"},
 		QuickBudget:    120 * time.Second,
 		ThoroughBudget: 12 * time.Minute,
 	}, body)
@@ -223,6 +230,8 @@ func dump(c Case, fp, msg string) {
 	f.Close()
 }
 
+var schedReport func(c Case, fp, msg string)
+
 func body(w *runner.W) {
 	cache := &dirCache{root: filepath.Join(w.Scratch(), "builds"), seed: w.Seed, m: map[string]string{}, snap: map[string]map[string]wh.Snap{}}
 	workN := 0
@@ -270,6 +279,36 @@ func body(w *runner.W) {
 
 		outcome := ""
 		failed := false
+		if w.Variant == "sched" && schedExplore != nil {
+			if pf.transpositions < 2 && pf.overlays < 2 {
+				r.Outcome("single-order")
+				return
+			}
+			n, herr := schedExplore(w, c, func() runResult {
+				workN++
+				return runOnce(w, workN, patch, oldDir, oldSnap, newSnap)
+			}, func(res runResult, orders []int) bool {
+				for _, f := range res.fails {
+					cc := c
+					cc.Orders = append([]int{}, orders...)
+					msg := fmt.Sprintf("%s [map iteration choices %v]", f.msg, orders)
+					if c.Orders != nil {
+						r.Failf(cl.fingerprint(f), "%s", msg)
+					} else {
+						schedReport(cc, cl.fingerprint(f), msg)
+					}
+					failed = true
+				}
+				return !failed
+			})
+			if herr != "" {
+				r.Failf("harness:explore", "%s", herr)
+			}
+			r.Trans(n)
+			r.Nontrivial()
+			r.Outcome(fmt.Sprintf("orders T%d O%d failed=%v", min(pf.transpositions, 3), min(pf.overlays, 3), failed))
+			return
+		}
 		for _, mo := range mapOrders(pf.transpositions, pf.overlays) {
 			workN++
 			res := runOnce(w, workN, patch, oldDir, oldSnap, newSnap)
@@ -299,6 +338,27 @@ func body(w *runner.W) {
 			outcome += " FAILED"
 		}
 		r.Outcome(outcome)
+	}
+
+	if w.Variant == "sched" {
+		mo := runner.NewSub(w, "map-orders", run, runner.Variant("sched"))
+		schedReport = func(c Case, fp, msg string) { mo.Report(c, fp, "%s", msg) }
+		if mo.Active() {
+			for _, o := range p1Trees() {
+				for _, n := range p1Trees() {
+					mo.Do(Case{Fam: "P1", Old: o, New: n, Patch: "plain"})
+				}
+			}
+			if !w.Quick() {
+				for _, o := range p2Trees() {
+					for _, n := range p2Trees() {
+						mo.Do(Case{Fam: "P2", Old: o, New: n, Patch: "plain"})
+					}
+				}
+			}
+			mo.Done()
+		}
+		return
 	}
 
 	// ---------------- P1: files over {a,b,c} x {absent,P,Q,R} ----------------
